@@ -10,24 +10,20 @@ import Hpfeeds.Lemmas.AioClient
 namespace Hpfeeds.C13
 open Hpfeeds Extracted
 
-/-! ## asyncio ClientSession -/
+/-! ## asyncio ClientSession (`autoStart := true, lossDelay := 0`) and Twisted ClientSessionService
+    (`autoStart := false, lossDelay := 1000`): one model, parametrized (Model/AioClient.lean) -/
 namespace Aio
 open Hpfeeds.AioClient
 
-/-- a reachable state has started its reconnect task once any event has been handled -/
-theorem started (cfg : Cfg) (es : List Ev) (e : Ev) : (run cfg (es ++ [e])).1.task ≠ .notStarted := by
-  have : (run cfg (es ++ [e])).1 = (step cfg (run cfg es).1 e).1 := by
-    simp [run, List.foldl_append]
-  rw [this]
-  -- every step starts with `kick`; no branch of `stepK` sets notStarted
-  have hk := kick_started (run cfg es).1
-  unfold step
-  generalize (kick (run cfg es).1).1 = s1 at hk ⊢
-  generalize (kick (run cfg es).1).2 = pre
+/-- no event ever takes the reconnect task back to "not started" -/
+theorem stepK_started (cfg : Cfg) (s1 : State) (pre : List Out) (e : Ev) (hk : s1.task ≠ .notStarted) :
+    (stepK cfg s1 pre e).1.task ≠ .notStarted := by
   intro hbad
-  have hT := (same_loop (cfg := cfg))
   unfold stepK at hbad
   cases e with
+  | start => simp only at hbad; split at hbad
+             · cases hbad
+             · exact hk hbad
   | idle => exact hk hbad
   | sub ch =>
     simp only at hbad
@@ -81,7 +77,9 @@ theorem started (cfg : Cfg) (es : List Ev) (e : Ev) : (run cfg (es ++ [e])).1.ta
     · exact hk hbad
     · split at hbad
       · exact hk hbad
-      · split at hbad <;> cases hbad
+      · split at hbad
+        · cases hbad
+        · split at hbad <;> cases hbad
   | data b =>
     simp only at hbad
     split at hbad
@@ -96,17 +94,35 @@ theorem started (cfg : Cfg) (es : List Ev) (e : Ev) : (run cfg (es ++ [e])).1.ta
         | none => rw [hrc] at hbad; simp only at hbad; rw [h1] at hbad; exact hk hbad
         | some c' => rw [hrc] at hbad; simp only at hbad; rw [h1] at hbad; exact hk hbad
 
+/-- once started, always started (any configuration) -/
+theorem stays_started (cfg : Cfg) (s : State) (e : Ev) (h : s.task ≠ .notStarted) :
+    (step cfg s e).1.task ≠ .notStarted := by
+  unfold step; rw [kick_of_started h]; exact stepK_started cfg s [] e h
+
+/-- asyncio: the reconnect task has started once any event has been handled -/
+theorem started (cfg : Cfg) (ha : cfg.autoStart = true) (es : List Ev) (e : Ev) :
+    (run cfg (es ++ [e])).1.task ≠ .notStarted := by
+  have : (run cfg (es ++ [e])).1 = (step cfg (run cfg es).1 e).1 := by
+    simp [run, List.foldl_append]
+  rw [this]
+  unfold step
+  exact stepK_started cfg _ _ e (kick_started cfg (run cfg es).1 ha)
+
+/-- Twisted: `startService()` on a fresh service makes the first attempt -/
+theorem start_attempts (cfg : Cfg) (s : State) (ha : cfg.autoStart = false) (hs : s.task = .notStarted)
+    (hc : s.closeCalled = false) :
+    (step cfg s .start).2 = [.attempt] ∧ (step cfg s .start).1.task = .connecting := by
+  have hk : kick cfg s = (s, []) := by unfold kick; simp [ha]
+  unfold step; rw [hk]; unfold stepK; simp [hs, hc]
+
 /-- (ii) close() ends it.  In EVERY reachable state: with no live transport close() returns at once and
     the reconnect task is cancelled; with a live transport — before OP_INFO, ready, already closing —
     that transport is closed and close() returns when its loss is reported. -/
-theorem close_bounded (cfg : Cfg) (es : List Ev) (e : Ev) (hc : (run cfg (es ++ [e])).1.closeCalled = false) :
-    let s := (run cfg (es ++ [e])).1
+theorem close_bounded (cfg : Cfg) (s : State) (hs : s.task ≠ .notStarted) (hc : s.closeCalled = false) :
     (Out.closeDone ∈ (step cfg s .close).2) ∨
     (∃ c, s.conn = some c ∧ c.gone = false ∧
       (step cfg s .close).1.conn = some { c with closing := true } ∧
       (step cfg (step cfg s .close).1 .lost).2 = [.closeDone]) := by
-  intro s
-  have hs : s.task ≠ .notStarted := started cfg es e
   cases hcn : s.conn with
   | none => left; rw [close_no_transport cfg s hs hc (Or.inl hcn)]; simp
   | some c =>
@@ -134,8 +150,12 @@ theorem no_attempt_after_close (cfg : Cfg) (es : List Ev) (e : Ev)
     are delivered (C12). -/
 theorem reconnects (cfg : Cfg) (s : State) :
     (∀ c, s.task ≠ .notStarted → s.conn = some c → c.gone = false → s.closing = false →
-      (step cfg s .lost).2 = [.attempt] ∧ (step cfg s .lost).1.task = .connecting ∧
-      (step cfg s .lost).1.subs = s.subs) ∧
+      (step cfg s .lost).1.subs = s.subs ∧
+      (cfg.lossDelay = 0 → (step cfg s .lost).2 = [.attempt] ∧ (step cfg s .lost).1.task = .connecting) ∧
+      (cfg.lossDelay ≠ 0 → (step cfg s .lost).1.task = .sleeping (s.now + cfg.lossDelay) ∧
+        ∀ ms, s.now + cfg.lossDelay ≤ s.now + ms →
+          (step cfg (step cfg s .lost).1 (.advance ms)).2 = [.attempt] ∧
+          (step cfg (step cfg s .lost).1 (.advance ms)).1.task = .connecting)) ∧
     (s.task = .connecting → (step cfg s .refuse).1.task = .sleeping (s.now + 1000) ∧
       ∀ ms, s.now + 1000 ≤ s.now + ms →
         (step cfg (step cfg s .refuse).1 (.advance ms)).2 = [.attempt] ∧
@@ -148,14 +168,15 @@ theorem reconnects (cfg : Cfg) (s : State) :
         Out.wrote c.k (authFrame cfg rand) :: (sortBytes s.subs).map (fun ch => Out.wrote c.k (subFrame cfg ch))) := by
   refine ⟨fun c hs hn hg hcl => ?_, fun hs => retry_after_refusal cfg s hs, fun hs => ?_,
     fun c f n rand hn hr hg hf hrd => (info_handshake cfg s c f n rand hn hr hg hf hrd).1⟩
-  · obtain ⟨a, b, _, d⟩ := reconnect_after_loss cfg s c hs hn hg hcl
-    exact ⟨a, b, d⟩
+  · obtain ⟨_, b, c', d⟩ := reconnect_after_loss cfg s c hs hn hg hcl
+    exact ⟨b, c', d⟩
   · obtain ⟨a, _, _, d⟩ := accept_fresh cfg s hs
     exact ⟨a, d⟩
 
 /-! non-vacuity (kernel-evaluated): loss before INFO, refused retry, new connection authenticates with
     ITS nonce and resubscribes; close before INFO completes at the loss; no attempt afterwards -/
-def exCfg : Cfg := ⟨[109], [115], id⟩
+def exCfg : Cfg := { ident := [109], secret := [115], H := id }
+def twCfg : Cfg := { ident := [109], secret := [115], H := id, autoStart := false, lossDelay := 1000 }
 def exInfo (a : UInt8) : Bytes := [0,0,0,12,1,2,104,112,a,8,7,6]
 example : (run exCfg [.sub [99], .accept, .lost, .refuse, .advance 1000, .accept, .data (exInfo 5)]).2 =
     [.attempt, .attempt, .attempt, .wrote 2 (authFrame exCfg [5,8,7,6]), .wrote 2 (subFrame exCfg [99])] := by
@@ -163,6 +184,13 @@ example : (run exCfg [.sub [99], .accept, .lost, .refuse, .advance 1000, .accept
 example : (run exCfg [.accept, .close, .lost, .advance 5000, .sub [99]]).2 =
     [.attempt, .closeT 1, .closeDone] := by decide +kernel
 example : (run exCfg [.refuse, .close, .advance 5000]).2 = [.attempt, .closeDone] := by decide +kernel
+-- Twisted: nothing before startService; after a loss the retry delay elapses first
+example : (run twCfg [.sub [99], .advance 5000, .start, .accept, .lost, .advance 999, .advance 1, .accept,
+    .data (exInfo 5)]).2 =
+    [.attempt, .attempt, .wrote 2 (authFrame twCfg [5,8,7,6]), .wrote 2 (subFrame twCfg [99])] := by
+  decide +kernel
+example : (run twCfg [.start, .accept, .close, .lost, .advance 5000, .start]).2 =
+    [.attempt, .closeT 1, .closeDone] := by decide +kernel
 
 end Aio
 end Hpfeeds.C13
